@@ -69,7 +69,7 @@ def _read_compressed(cb, ext):
         return [("compressed_bytes_are_csize_bytes_at_the_host_offset", z3.And(buf.n == avail, forall_k(buf.n, lambda k: buf.at(k) == z3.Select(m.farr, coffset + k)))),
                 ("result_is_the_inflated_cluster_from_the_offset_in_cluster", z3.And(rv.n == zmax(zmin(oic + n0, m.DEC.n) - oic, z3.IntVal(0)), forall_k(rv.n, lambda k: rv.at(k) == m.DEC.at(oic + k))))]
 
-    c = FnContract(FILE, "QCow2._read_compressed", ["C01", "C13"], lambda: ReadModel(cb, ext),
+    c = FnContract(FILE, "QCow2._read_compressed", ["C01", "C08", "C13"], lambda: ReadModel(cb, ext),
                    params=lambda m: {"self": ObjV("self"), "cluster_descriptor": IntV(d0), "offset": IntV(o0), "length": IntV(n0)},
                    requires=lambda m: [d0 >= 0, d0 < (1 << 62), o0 >= 0, n0 >= 0, m.fsize >= 0, m.DEC.n >= 0, m.DEC.n <= m.cs], post=post, case=_case_name(cb, ext),
                    note="descriptor is any 62-bit value (host offsets of any byte alignment, above 4 GiB); inflate assumed")
@@ -129,7 +129,7 @@ def _count_contiguous(cb):
                                                    eng.truthy(co) == chk, t0 != SCT["QCOW2_SUBCLUSTER_COMPRESSED"])))
         return z3.And(*parts)
 
-    return FnContract(FILE, "count_contiguous_subclusters", ["C01"], lambda: CountModel(cb),
+    return FnContract(FILE, "count_contiguous_subclusters", ["C01", "C07"], lambda: CountModel(cb),
                       params=lambda m: {"qcow2": ObjV("qcow2"), "nb_clusters": IntV(nb0), "sc_index": IntV(z3.IntVal(0)), "l2_table": ObjV("l2_table"), "l2_index": IntV(i0)},
                       requires=lambda m: [nb0 >= 1, i0 >= 0, i0 + nb0 <= (1 << m.l2_bits), z3.ForAll([T], z3.And(m.E(T) >= 0, m.E(T) <= U64))], post=post,
                       loops={("For", 0): LoopSpec(inv=lambda eng, st: loop_inv(eng, st, st.env["$i0"].e),
@@ -304,7 +304,7 @@ def _yield_runs(cb):
     def post(eng, st, rv):
         return [("runs_cover_the_request_exactly", st.ghost["plen"] == length0)]
 
-    c = FnContract(FILE, "QCow2._yield_runs", ["C01", "C08"], lambda: RunModel(cb), params=lambda m: {"self": ObjV("self"), "offset": IntV(offset0), "length": IntV(length0)},
+    c = FnContract(FILE, "QCow2._yield_runs", ["C01", "C07", "C08"], lambda: RunModel(cb), params=lambda m: {"self": ObjV("self"), "offset": IntV(offset0), "length": IntV(length0)},
                    requires=lambda m: m.hyps + [offset0 >= 0, length0 >= 0, z3.ForAll([T], z3.And(m.L1(T) >= 0, m.L1(T) <= U64)), z3.ForAll([z3.Int("u"), T], z3.And(m.E2(z3.Int("u"), T) >= 0, m.E2(z3.Int("u"), T) <= U64))],
                    post=post, on_yield=on_yield, ghost=lambda m: {"plen": z3.IntVal(0)},
                    loops={("While", 0): LoopSpec(inv, lambda eng, st: st.env["length"].e, ghost_havoc={"plen": "int"},
@@ -886,7 +886,7 @@ def _yield_runs_ext(cb):
     def post(eng, st, rv):
         return [("runs_cover_the_request_exactly", st.ghost["plen"] == length0)]
 
-    c = FnContract(FILE, "QCow2._yield_runs", ["C01", "C08"], lambda: ExtRunModel(cb), params=lambda m: {"self": ObjV("self"), "offset": IntV(offset0), "length": IntV(length0)},
+    c = FnContract(FILE, "QCow2._yield_runs", ["C01", "C07", "C08"], lambda: ExtRunModel(cb), params=lambda m: {"self": ObjV("self"), "offset": IntV(offset0), "length": IntV(length0)},
                    requires=lambda m: [offset0 >= 0, length0 >= 0] + m.axioms(), post=post, on_yield=on_yield, ghost=lambda m: {"plen": z3.IntVal(0)}, raises={"Error": None},
                    loops={("While", 0): LoopSpec(inv, lambda eng, st: st.env["length"].e, ghost_havoc={"plen": "int"},
                                                  shapes={k: "local" for k in ("sc_type", "host_offset", "read_count", "l1_index", "l2_index", "sc_index", "offset_in_cluster", "bytes_needed", "bytes_available", "l2_offset",
